@@ -116,6 +116,8 @@ def extract(config, out_dir, log):
         'CRUXFACTS_CONFIG': config,
         'CARGO_TARGET_DIR': TARGET,
         'CARGO_NET_OFFLINE': 'true',
+        # same query order on a cold and on a warm target directory
+        'CARGO_INCREMENTAL': '0',
     })
     env.pop('RUSTC_WRAPPER', None)
     t0 = time.time()
